@@ -1984,3 +1984,8 @@ MA('C03', 'operator sum accumulates into the result of its left summand',
    'odl/operator/operator.py', 'OperatorSum._call',
    'return self.left(x) + self.right(x)',
    'out = self.left(x)\nout += self.right(x)\nreturn out', 'RealPart')
+MA('C15', 'fixed-displacement deformation lets the interpolator write into out',
+   'odl/deform/linearized.py', 'LinDeformFixedDisp._call',
+   'out[:] = linear_deform(template, self.displacement, self.interp)',
+   "linear_deform(template, self.displacement, self.interp, out=out.asarray().reshape(-1))",
+   'R6a')
